@@ -10,6 +10,7 @@ the same boundary; `run` executes the batch; after `timer` only `run` is offered
 import asyncio
 import gc
 import logging
+KEEP_LOGGING = False        # set by the runner's "__trace__" shards: logging stays enabled down to TRACE (rendered, discarded)
 
 from .vloop import VLoop
 
@@ -89,7 +90,8 @@ class World:
 
 def execute(make_world, chooser, trace=False):
     """Run one schedule.  Returns (world, status) with status in {quiescent, horizon}."""
-    logging.disable(logging.CRITICAL)      # the drivers log every injected fault; output is not an observation
+    if not KEEP_LOGGING:
+        logging.disable(logging.CRITICAL)      # the drivers log every injected fault; output is not an observation
     import signal
     import threading
     armed = threading.current_thread() is threading.main_thread()
